@@ -73,7 +73,7 @@ def cli(argv=sys.argv, mode='output'):
     parser.add_argument(
         '--input',
         '-i',
-        type=argparse.FileType('r'),
+        type=argparse.FileType('r', encoding='utf-8'),
         metavar="<input>",
         default='-',
         help=
